@@ -727,6 +727,7 @@ class Recorder:
         self.lib_root = os.path.join(os.path.abspath(lib_root), "")
         self.statements = []
         self.driver_calls = []
+        self.fail_at = None         # fault injection: the fail_at-th recorded statement raises a driver error
 
     def _issuer(self):
         f = sys._getframe(2)
@@ -751,6 +752,9 @@ class Recorder:
         issuer = self._issuer()
         st = Statement(text, params, issuer, via)
         self.statements.append(st)
+        if self.fail_at is not None and len(self.statements) == self.fail_at:
+            from neo4j.exceptions import ServiceUnavailable
+            raise ServiceUnavailable("injected driver failure (harness)")
         cols = return_columns(text)
         fn = self.world.get("rows", {}).get(issuer)
         if fn is not None:
